@@ -71,3 +71,15 @@ claim('C19', 'finite probe interpretation of _qasm_ methods (my AST evaluator) w
       'C19.b every mnemonic exists with that parameter/operand count, operands distinct, angles as half turns; C19.c version validated before formatting, writer never drops an operation, '
       'measurement inversion lines symmetric',
       'QasmUGate/QasmTwoQubitGate fallback numerics, register layout and bit order, classical conditions, printed precision')
+claim('C01', 'must-follow / exchange-order rules on the state-vector buffer discipline, required guard on the sweep prefix, kernel==matrix finite-domain interpretation (shared with C04.b)',
+      'C01.a every write to the scratch buffer is committed, the tensor returned by apply_unitary is the one committed, exchange precedes rebinding, create() copies an aliased input; '
+      'C01.b sweep prefix excludes parameterized operations; C01.c per-repetition/per-point copies; C01.k in-place kernels of 12 table-defined gate families == their matrices',
+      'numerical equality of whole simulations with the ordered matrix product, axis/permutation arithmetic, product-state factor/kron, dtype tolerance')
+claim('C02', 'effect analysis of sample(), in-place-mutation vs copy() field coherence, loop/copy dominance in the run loop, def-use taint of the recorded value, finite-domain extraction of the product-state column order, rebuild completeness of measurement gates / conditions',
+      'C02.a sampling is side-effect free; C02.b copy() duplicates every field mutated in place; C02.c each repetition/sweep point starts from a copy and the sample-many path is guarded; '
+      'C02.e recorded digits depend on measured bits, confusion map and invert mask under the given key; C02.g product-state sample column order (all cases of 3 qubits); C02.f measurement gates/conditions keep all fields when rebuilt',
+      'outcome probabilities, collapse and renormalisation arithmetic, stabilizer measurement, confusion sampling arithmetic')
+claim('C09', 'must-follow / exchange-order rules on density-matrix and trajectory kernels, argument-provenance coherence of the two noise entry points, copy isolation',
+      'C09.a density-matrix/state-vector buffer commit discipline incl. copying an aliased initial state; C09.b trajectories renormalised before commit, mixture drawn with its own probabilities; '
+      'C09.c with_noise and the simulators call noisy_moments with the circuit\'s own sorted qubits; C09.e copy isolation',
+      'Kraus completeness / trace preservation, representation conversions, axis arithmetic, probability tolerances in channel constructors')
